@@ -80,6 +80,11 @@ func runCase(env *vlib.Env, idx int, rep *vlib.Reporter) {
 	wb := gossipnet.NewWorld(env.Seed+uint64(idx%3), n, t) // same keypers
 	wb.Eon = fixtures.NewEonKeys(env.Seed+777, n, t)
 	wb.CfgIndex, wb.EonNo, wb.Activation = 4, 9, 500
+	if idx%5 == 2 {
+		// a configuration that admits long messages (production: 500..1024 keys per message)
+		wa.MaxKeys, wb.MaxKeys = 128, 128
+		rep.Obs("cases_with_long_message_limit", 1)
+	}
 	w := &world{a: wa, b: wb, other: fixtures.NewEonKeys(env.Seed+999, n, t), flavour: flavour}
 	for i := 0; i < 4; i++ {
 		size := gossipnet.IDSize(flavour)
@@ -180,6 +185,14 @@ func runCase(env *vlib.Env, idx int, rep *vlib.Reporter) {
 			return
 		}
 		got := res == pubsub.ValidationAccept
+		if len(g.entries) >= 64 && len(g.entries) <= int(w.a.MaxKeys) {
+			rep.Obs("long_messages", 1)
+			if got {
+				rep.Obs("long_messages_accepted", 1)
+			} else if strings.HasPrefix(want.why, "entry:") {
+				rep.Obs("long_messages_rejected_for_one_bad_entry", 1)
+			}
+		}
 		if got != want.accept {
 			k := "accepts-invalid:" + g.kind + ":" + want.why
 			if want.accept {
@@ -325,6 +338,30 @@ func genMessage(r *vlib.Rng, w *world, n int, storedHint map[int][]byte) *genMsg
 	order()
 	nm := []int{0, 0, 1, 1, 1, 2, 3}[r.Intn(7)]
 	unsorted := false
+	if w.a.MaxKeys >= 100 && r.Intn(8) == 0 {
+		// a long message (64..100 entries); every single entry must be checked, wherever it sits
+		if r.Chance(2, 3) {
+			g.kind = "shares"
+		}
+		l := 64 + r.Intn(37)
+		for len(g.entries) < l {
+			g.entries = append(g.entries, entry{id: perm[len(perm)-1], kind: "genuine"})
+		}
+		g.muts = append(g.muts, fmt.Sprintf("long=%d", l))
+		if r.Chance(3, 4) {
+			pos := r.Intn(l)
+			if r.Chance(1, 2) {
+				pos = l - 1 - r.Intn(8)
+			}
+			kinds := []string{"other-identity", "other-eonset", "bitflip", "truncated", "random"}
+			if g.kind == "shares" {
+				kinds = append(kinds, "other-keyper", "other-keyper")
+			}
+			g.entries[pos].kind = kinds[r.Intn(len(kinds))]
+			g.muts = append(g.muts, fmt.Sprintf("entry[%d]=%s", pos-l, g.entries[pos].kind))
+		}
+		nm = []int{0, 0, 0, 1}[r.Intn(4)]
+	}
 	for i := 0; i < nm; i++ {
 		switch r.Intn(13) {
 		case 0:
